@@ -885,8 +885,10 @@ def run(ctx):
         "C18 show_parse_units (printable_of_valid).  Not covered by a theorem: systems whose state / chemostat map is left to the "
         "generated default (C13), trajectories (save/load over real files: key tables + oracle), JSON text and file contents "
         "(trusted primitives), children given as file paths beyond multi_file_equals_inline",
-        "alias_interchangeable: see the theorem list of Props/C12.lean; oracle mode `alias` + correspondence edits `alias` / "
-        "`two-synonyms` cover the real code",
+        "alias_interchangeable is proved in general (Proofs/DictAlias.lean, Props/C12Classes.lean): for every reader, every "
+        "dictionary carrying the keys its writer emits (any values) and every synonym of any of its keys, the generic reader returns "
+        "the same result; the key-level side conditions are evaluated on the regenerated tables (alias_checks_all).  Dictionaries "
+        "with several synonyms at once / other key sets: oracle mode `alias` + correspondence edits `alias` / `two-synonyms`",
     ]
     ctx.extra["reader_alias_groups"] = {k: len(v) for k, v in aliases.items()}
     counts = {"network": ctx.n(40, 1500), "grid": ctx.n(30, 800), "graph": ctx.n(30, 800), "system": ctx.n(40, 1500),
